@@ -293,3 +293,27 @@ def minerFound (C : Crypto) (P : Params) (n : Node) (cs : CoinState) (s : Summar
         ((n₃, none), some b)
 
 end Model
+
+/-! ### the requester's follow-up loop against one server state (C10) -/
+
+namespace C10Walk
+open Model
+
+variable (C : Crypto) (P : Params)
+
+/-- the requester's loop: ask with `loc`; after a non-empty reply ask again with `[last id]`; stop at
+an empty reply (or when `fuel` runs out); the ids of all replies in order -/
+def walk (server : CoinState) : Nat → List Bytes → Except Err (List Bytes)
+  | 0, _ => .ok []
+  | fuel + 1, loc =>
+    match inventoryReply C P server loc with
+    | .error e => .error e
+    | .ok ids =>
+      match ids.getLast? with
+      | none => .ok []
+      | some last =>
+        match walk server fuel [last] with
+        | .error e => .error e
+        | .ok rest => .ok (ids ++ rest)
+
+end C10Walk
